@@ -7,7 +7,31 @@ fn v(n: &str) -> Exp { Exp::Variable(n.into()) }
 fn k(x: f64) -> Exp { Exp::Number(x) }
 fn d(n: &str, ty: VariableType) -> VarDecl { VarDecl { name: n.into(), ty } }
 
+fn bx(e: Exp) -> Box<Exp> { Box::new(e) }
+
+/// C01 (fixed 46b0121): `min y s.t. y >= max{10, e}; x <= 1; x >= 0` where `e` is dominated by 10 and has no value
+/// at any assignment — `linearize_extreme` used to prune `e` without lowering it, so its error was never reported.
+/// Model and implementation must both reject these.
+fn pruned_undefined(e: Exp) -> Model {
+    let free = || VariableType::Real(f64::NEG_INFINITY, f64::INFINITY);
+    build(OptimizationType::Min, v("y"),
+        vec![Constraint::new(v("y"), Comparison::GreaterOrEqual, Exp::Max(vec![k(10.0), e]), "c".into()),
+             Constraint::new(v("x"), Comparison::LessOrEqual, k(1.0), "u".into()),
+             Constraint::new(v("x"), Comparison::GreaterOrEqual, k(0.0), "l".into())],
+        &[d("x", free()), d("y", free())])
+}
+
 pub fn models() -> Vec<Model> {
+    let xdiv0 = || Exp::BinOp(BinOp::Div, bx(v("x")), bx(k(0.0)));
+    let mut out = models_base();
+    out.push(pruned_undefined(Exp::Min(vec![v("x"), xdiv0()])));
+    out.push(pruned_undefined(Exp::BinOp(BinOp::Mul, bx(k(0.0)), bx(xdiv0()))));
+    out.push(pruned_undefined(Exp::Min(vec![v("x"), Exp::BinOp(BinOp::Div, bx(k(1.0)), bx(k(0.0)))])));
+    out.push(pruned_undefined(Exp::BinOp(BinOp::Add, bx(Exp::BinOp(BinOp::Mul, bx(xdiv0()), bx(k(0.0)))), bx(v("x")))));
+    out
+}
+
+fn models_base() -> Vec<Model> {
     vec![
         // C01: derived range [0,0.5] of a Boolean feeds operand pruning but is never enforced
         build(OptimizationType::Max, v("x"),
@@ -58,4 +82,17 @@ pub fn models() -> Vec<Model> {
                  Constraint::new(v("x"), Comparison::LessOrEqual, k(6.0), "a".into())],
             &[d("x", VariableType::Real(-3.0, 30.0))]),
     ]
+}
+
+#[cfg(test)]
+mod tests {
+    /// the four inputs of finding C01-prune-undefined-operand are rejected by the implementation (46b0121)
+    #[test]
+    fn pruned_undefined_operands_are_rejected() {
+        let all = super::models();
+        let n = all.len();
+        for m in &all[n - 4..] {
+            assert!(rooc::Linearizer::linearize(m.clone()).is_err(), "compiled: {}", m);
+        }
+    }
 }
